@@ -158,7 +158,7 @@ def pHAct : P HAct := do
 
 open Rivaas.Timeout in
 def tChunk (n : Nat) : Timeout.Chunk :=
-  if n == recChunk then .rec500 else if n == timeoutChunk then .t408 else .h
+  if n == recChunk then .rec500 else if n == timeoutChunk then .t408 else if n == 7 || n == 99 then .h else .other
 
 open Rivaas.Timeout in
 def tStatus (c : Option Timeout.Chunk) : Nat :=
@@ -167,6 +167,7 @@ def tStatus (c : Option Timeout.Chunk) : Nat :=
   | some .h => 217
   | some .t408 => 408
   | some .rec500 => 500
+  | some .other => 299
 
 open Rivaas.Timeout in
 def stepT (id : String) (inp obs : List String) : String :=
@@ -191,7 +192,7 @@ def stepT (id : String) (inp obs : List String) : String :=
       let iObs := (st, body, re, hp, rc, f)
       let io : TObs := { status := (if st == 408 then some .t408 else if st == 500 then some .rec500 else if st == 200 then none else some .h),
                          body := body, escaped := e.isSome, releasedEarly := re, hPanicked := hp, recovered := rc }
-      let chs : Timeout.Chunk → String | .h => "7" | .t408 => toString timeoutChunk | .rec500 => toString recChunk
+      let chs : Timeout.Chunk → String | .h => "7" | .t408 => toString timeoutChunk | .rec500 => toString recChunk | .other => "999999"
       verdict id (mObs == iObs && e.isNone) (timeoutOK io && f == 229) "-"
         s!"{tStatus s1.status} {s1.body.length} {" ".intercalate (s1.body.map chs)} 0 {if s1.releasedEarly then 1 else 0} {if s1.panicChan.isSome then 1 else 0} {if s1.recovered.isSome then 1 else 0} 229"
   | _, _ => s!"{id} bad-case"
@@ -230,7 +231,7 @@ def stepO (id : String) (inp obs : List String) : String :=
       let iObs := (dl, bud, calls, st, body, hp, rc)
       let io : TObs := { status := (if st == 408 then some .t408 else if st == 500 then some .rec500 else if st == 200 then none else some .h),
                          body := body, escaped := e.isSome, releasedEarly := false, hPanicked := hp, recovered := rc }
-      let chs : Timeout.Chunk → String | .h => "7" | .t408 => toString timeoutChunk | .rec500 => toString recChunk
+      let chs : Timeout.Chunk → String | .h => "7" | .t408 => toString timeoutChunk | .rec500 => toString recChunk | .other => "999999"
       verdict id (mObs == iObs && e.isNone) (timeoutOK io && (skipSpec opts path == !dl)) "-"
         s!"{if skipped then 0 else 1} {mBud} {mCalls} {tStatus s.status} {s.body.length} {" ".intercalate (s.body.map chs)} 0 {if s.panicChan.isSome then 1 else 0} {if s.recovered.isSome then 1 else 0}"
   | _, _ => s!"{id} bad-case"
